@@ -100,12 +100,16 @@ Move == /\ Is("Move") /\ Fresh /\ ph = "run" /\ InOp /\ fam # "ref"
         /\ UNCHANGED <<fam, cfg, ph, blks, cont, xa, op>>
 \* only any_scheduler's copy construction / copy assignment / schedule() copy the wrapped scheduler (schedulers are
 \* cheap copyable handles: the number of copies is not constrained, every copy is a copy of the wrapped scheduler)
+\* The owning wrappers copy only when the caller hands them a const lvalue (construct / assign with via = "copy"): once,
+\* from that lvalue.
 Copy == /\ Is("Copy") /\ Fresh /\ ph = "run" /\ InOp
-        /\ \/ fam = "sched" /\ op.k \in {"copyc", "copya", "sched"}
-           \/ fam = "sref" /\ op.k = "sched"
         /\ E.from \in DOMAIN objs /\ objs[E.from].live
-        /\ objs[E.from].val = Content(IF op.k = "sched" THEN op.w ELSE op.s).v
-        /\ objs[E.from].kd = Content(IF op.k = "sched" THEN op.w ELSE op.s).k
+        /\ \/ /\ \/ fam = "sched" /\ op.k \in {"copyc", "copya", "sched"}
+                 \/ fam = "sref" /\ op.k = "sched"
+              /\ objs[E.from].val = Content(IF op.k = "sched" THEN op.w ELSE op.s).v
+              /\ objs[E.from].kd = Content(IF op.k = "sched" THEN op.w ELSE op.s).k
+           \/ /\ fam \in Own /\ op.k \in {"construct", "assign"} /\ op.via = "copy" /\ oc.copy = 0
+              /\ E.from \in NewObjs /\ objs[E.from].lk = "x"
         /\ objs' = objs @@ (E.id :> NewObj(FALSE))
         /\ oc' = [oc EXCEPT !.copy = @ + 1, !.new = E.id]
         /\ UNCHANGED <<fam, cfg, ph, blks, cont, xa, op>>
@@ -181,7 +185,7 @@ MoveOk ==
 ConstructOk ==
   /\ oc.new # 0 /\ objs[oc.new].live /\ objs[oc.new].val = op.val /\ objs[oc.new].kd = op.kind
   /\ Placed(oc.new, W) /\ OnlySurvivor(oc.new)
-  /\ oc.copy = 0                      \* (how often a *value argument* is moved on its way in is not constrained)
+  /\ oc.copy = (IF op.via = "copy" THEN 1 ELSE 0)   \* (how often a *value argument* is moved on its way in is not constrained)
 InvokeOk ==
   LET c == cont[W]
       o == Content(W)
